@@ -17,6 +17,7 @@ def main():
     class Drv(object):
         drv_spawn = L.load_function(B.new_function_type((), BInt), 'drv_spawn')
         drv_call_async = L.load_function(B.new_function_type((BInt, BVoidP, BInt, BInt), BVoid), 'drv_call_async')
+        drv_call_gil_async = L.load_function(B.new_function_type((BInt, BVoidP, BInt, BInt), BVoid), 'drv_call_gil_async')
         drv_wait = L.load_function(B.new_function_type((BInt,), BInt), 'drv_wait')
         drv_call = L.load_function(B.new_function_type((BInt, BVoidP, BInt, BInt), BInt), 'drv_call')
         drv_exit = L.load_function(B.new_function_type((BInt,), BVoid), 'drv_exit')
@@ -63,6 +64,21 @@ def main():
         if op == 'spawn':
             threads[step[1]] = drv.drv_spawn()
             callno[step[1]] = 0
+        elif op == 'gcall':
+            # callback entered while the foreign thread's own C code already holds the GIL
+            fno, k = step[1], step[2] % len(cbs)
+            if fno not in threads or callno.get(fno, 0) == 0:
+                continue
+            if fno in pending:
+                r = drv.drv_wait(threads[fno])
+                if r != pending.pop(fno):
+                    report['errors'].append('async result mismatch thread %d' % fno)
+            expect = fno * 1000 + callno[fno] * 7 + k
+            drv.drv_call_gil_async(threads[fno], B.cast(BVoidP, cbs[k]), fno, callno[fno])
+            r = drv.drv_wait(threads[fno])
+            if r != expect:
+                report['errors'].append('gil-held call result %r != %r (thread %d)' % (r, expect, fno))
+            callno[fno] += 1
         elif op in ('call', 'acall'):
             fno, k = step[1], step[2] % len(cbs)
             if fno not in threads:
